@@ -263,6 +263,64 @@ theorem getbinsScalar_covers (n : Nat) (hn : 0 < n) (mx mn : α) (right : Bool) 
     · simp [below]; linarith
     · simp [below]; exact h2
 
+/-! ### `max` / `min` of the data columns -/
+
+theorem foldl_max_ge' (r : List α) :
+    ∀ m : α, m ≤ r.foldl (fun m x => if m < x then x else m) m ∧
+      ∀ x ∈ r, x ≤ r.foldl (fun m x => if m < x then x else m) m := by
+  induction r with
+  | nil => intro m; simp
+  | cons x r ih =>
+      intro m
+      simp only [List.foldl_cons]
+      obtain ⟨h1, h2⟩ := ih (if m < x then x else m)
+      have hm : m ≤ (if m < x then x else m) := by split <;> [exact le_of_lt ‹_›; exact le_refl _]
+      have hx : x ≤ (if m < x then x else m) := by
+        split
+        · exact le_refl _
+        · exact not_lt.mp ‹_›
+      refine ⟨le_trans hm h1, ?_⟩
+      intro d hd
+      rcases List.mem_cons.mp hd with rfl | hd
+      · exact le_trans hx h1
+      · exact h2 d hd
+
+theorem foldl_min_le' (r : List α) :
+    ∀ m : α, r.foldl (fun m x => if x < m then x else m) m ≤ m ∧
+      ∀ x ∈ r, r.foldl (fun m x => if x < m then x else m) m ≤ x := by
+  induction r with
+  | nil => intro m; simp
+  | cons x r ih =>
+      intro m
+      simp only [List.foldl_cons]
+      obtain ⟨h1, h2⟩ := ih (if x < m then x else m)
+      have hm : (if x < m then x else m) ≤ m := by split <;> [exact le_of_lt ‹_›; exact le_refl _]
+      have hx : (if x < m then x else m) ≤ x := by
+        split
+        · exact le_refl _
+        · exact not_lt.mp ‹_›
+      refine ⟨le_trans h1 hm, ?_⟩
+      intro d hd
+      rcases List.mem_cons.mp hd with rfl | hd
+      · exact le_trans h1 hx
+      · exact h2 d hd
+
+theorem maxOf_spec (a : α) (r : List α) : ∃ M, maxOf (a :: r) = some M ∧ ∀ x ∈ a :: r, x ≤ M := by
+  refine ⟨_, rfl, ?_⟩
+  obtain ⟨h1, h2⟩ := foldl_max_ge' r a
+  intro x hx
+  rcases List.mem_cons.mp hx with rfl | hx
+  · exact h1
+  · exact h2 x hx
+
+theorem minOf_spec (a : α) (r : List α) : ∃ M, minOf (a :: r) = some M ∧ ∀ x ∈ a :: r, M ≤ x := by
+  refine ⟨_, rfl, ?_⟩
+  obtain ⟨h1, h2⟩ := foldl_min_le' r a
+  intro x hx
+  rcases List.mem_cons.mp hx with rfl | hx
+  · exact h1
+  · exact h2 x hx
+
 end field
 
 end PyYetiVerif.Binify
